@@ -158,6 +158,18 @@ class Tracer:
                         tr.events.append(("S-",))
         slots_mod.add_slot_to_error_message = add_slot_to_error_message
 
+        orig_extract = slots_mod._extract_fill_content
+
+        def _extract_fill_content(*a, **kw):
+            if tr.enabled:
+                tr.events.append(("X+",))
+            try:
+                return orig_extract(*a, **kw)
+            finally:
+                if tr.enabled:
+                    tr.events.append(("X-",))
+        slots_mod._extract_fill_content = _extract_fill_content
+
         orig_attrs = comp_mod.set_component_attrs_for_js_and_css
 
         def set_component_attrs_for_js_and_css(*a, **kw):
@@ -179,6 +191,7 @@ class Tracer:
         def c06f(value):
             tr.point("filter")
             return value
+        lib.filter("c06g", c06f)
 
         class DropNode(Node):
             def __init__(self, nodelist):
@@ -245,7 +258,7 @@ def _has_fill(ts):
     return False
 
 
-def decorate(prog, rng, p_point=0.22, p_wrap=0.3, p_drop=0.06, p_sanitize=0.85):
+def decorate(prog, rng, p_point=0.22, p_wrap=0.3, p_drop=0.06, p_sanitize=0.85, p_extract=0.4):
     """insert `{% c06p %}` / `{{ ""|c06f }}` points, `<b>..</b>` wrappers around component tags and
     `{% c06drop %}` regions into the templates of a genprog program (as raw text nodes).
     With probability p_sanitize the program's own error sources (required slots, inject without default) are
@@ -273,16 +286,29 @@ def decorate(prog, rng, p_point=0.22, p_wrap=0.3, p_drop=0.06, p_sanitize=0.85):
             out.append(pt())
         return out
 
+    def xp(e, text_ok):
+        """in a fill-collecting tag body (outside fill contents) expressions are evaluated during fill discovery:
+        pipe some of them through the callback filter"""
+        if text_ok or rng.random() >= p_extract:
+            return e
+        # genprog spells a tag-argument variable whose name hashes to 0 mod 3 as "{{ name }}"; pick the alias of the
+        # filter for which the synthesized expression keeps its bare spelling
+        for f in ("c06f", "c06g"):
+            x = G.d_expr(e) + "|" + f
+            if sum(map(ord, x)) % 3 != 0:
+                return ("var", x)
+        return e
+
     def t1(t, text_ok):
         k = t[0]
         if k == "if":
-            return ("if", t[1], ts(t[2], text_ok), ts(t[3], text_ok))
+            return ("if", xp(t[1], text_ok), ts(t[2], text_ok), ts(t[3], text_ok))
         if k in ("for", "with"):
-            return (k, t[1], t[2], ts(t[3], text_ok))
+            return (k, t[1], xp(t[2], text_ok), ts(t[3], text_ok))
         if k == "slot":
             return ("slot", t[1], t[2], t[3] and not sanitize, t[4], ts(t[5], text_ok))
         if k == "fill":
-            return ("fill", t[1], t[2], t[3], ts(t[4], True))
+            return ("fill", xp(t[1], text_ok), t[2], t[3], ts(t[4], True))
         if k == "comp":
             return ("comp", t[1], t[2], t[3], ts(t[4], not _has_fill(t[4])))
         if k == "provide":
@@ -373,14 +399,22 @@ def canon(out):
     return RID_RE.sub("", DJCID_RE.sub("", COMMENT_RE.sub("", out)))
 
 
-def run_once(job, target, variant, keep_alloc=False, limit=30.0):
+def ctx_fingerprint(ctx):
+    """what the caller can see of its Context object: layers (keys per layer) and the render_context depth"""
+    return [[sorted(str(k) for k in d.keys()) for d in ctx.dicts], len(ctx.render_context.dicts)]
+
+
+def run_once(job, target, variant, keep_alloc=False, limit=30.0, again=False):
     """one render of `job` with callback invocation `target` raising (None: nobody raises).
-    Returns a dict of observations (JSON-able)."""
+    again: afterwards the job is rendered once more, fault-free, with the SAME Context object (tracing off);
+    its canonical output is reported as obs['again'].  Returns a dict of observations (JSON-able)."""
     from django.template import Context
     TR.reset(target, variant, keep_alloc=keep_alloc)
     sentinels = []
     ctx = Context({k: sentinelize(v, sentinels) for k, v in job.prog["ctx"]})
     d0 = len(ctx.render_context.dicts)
+    n0 = len(ctx.dicts)
+    fp0 = ctx_fingerprint(ctx)
     obs = {"target": target, "variant": variant}
     signal.signal(signal.SIGALRM, _alarm)
     signal.setitimer(signal.ITIMER_REAL, limit)
@@ -414,12 +448,39 @@ def run_once(job, target, variant, keep_alloc=False, limit=30.0):
     obs["npoints"] = TR.count
     obs["fired"] = TR.raised is not None
     obs["rc"] = len(ctx.render_context.dicts) - d0
+    obs["cd"] = len(ctx.dicts) - n0
+    fp1 = ctx_fingerprint(ctx)
+    obs["ctx_same"] = fp1 == fp0
+    if fp1 != fp0:
+        obs["ctx_before"], obs["ctx_after"] = fp0, fp1
     obs["meta"] = sorted(rid for rid, inst in TR.instances if len(inst._metadata_stack))
     obs["events"] = TR.events
     obs["alloc"] = list(TR.alloc)
     TR.instances = []
     TR.raised = None
     TR.events = []
+    obs["tables"] = table_keys()
+    if again and obs["res"] != "timeout":
+        # a later render with the very same Context object
+        saved = (TR.target, TR.count, list(TR.alloc))
+        TR.target = None
+        TR.enabled = False
+        signal.setitimer(signal.ITIMER_REAL, limit)
+        try:
+            try:
+                obs["again"] = canon(job.render(ctx, sentinels))
+            finally:
+                signal.setitimer(signal.ITIMER_REAL, 0)
+        except RenderTimeout:
+            obs["again"] = None
+        except Exception as e:  # noqa
+            obs["again"] = "ERR:" + type(e).__name__
+        TR.enabled = True
+        TR.events = []
+        TR.instances = []
+        TR.target, TR.count, TR.alloc = saved
+        obs["tables_after_again"] = table_keys()
+        obs["ctx_same_after_again"] = ctx_fingerprint(ctx) == fp0
     wr = [weakref.ref(s) for s in sentinels]
     obs["nsent"] = len(wr)
     del sentinels, ctx
@@ -431,7 +492,6 @@ def run_once(job, target, variant, keep_alloc=False, limit=30.0):
             gc.collect()
             alive = sum(1 for w in wr if w() is not None)
     obs["alive"] = alive
-    obs["tables"] = table_keys()
     return obs
 
 
@@ -520,6 +580,12 @@ class TreeBuilder:
                 self.take("V-")
                 items.append(("provide", b))
                 pending.extend(p)
+            elif k == "X+":
+                self.pos += 1
+                b, p = self.body(lambda x: x[0] == "X-", avail, anc, dropped)
+                self.take("X-")
+                items.append(("extract", b))
+                pending.extend(p)
             elif k == "D+":
                 self.pos += 1
                 b, p = self.body(lambda x: x[0] == "D-", avail, anc, True)
@@ -591,6 +657,8 @@ def c_item(it, labels):
         return "IProvide (%s)" % c_items(it[1], labels)
     if k == "drop":
         return "IDrop (%s)" % c_items(it[1], labels)
+    if k == "extract":
+        return "IExtract (%s)" % c_items(it[1], labels)
     _, isroot, n = it
     return "IComp %s %s %s %s (Comp %s %s (%s))" % (
         C.cbool(isroot), C.cbool(n["rootel"]), C.cnat(n["up"]), C.clist([C.cbool(b) for b in n["mask"]]),
@@ -603,7 +671,7 @@ def tree_size(items):
         n += 1
         if it[0] in ("slot",):
             n += tree_size(it[2])
-        elif it[0] in ("provide", "drop"):
+        elif it[0] in ("provide", "drop", "extract"):
             n += tree_size(it[1])
         elif it[0] == "comp":
             n += tree_size(it[2]["body"])
@@ -625,6 +693,9 @@ def tree_features(items, depth=0, acc=None):
             tree_features(it[1], depth, acc)
         elif k == "drop":
             acc["drops"] += 1
+            tree_features(it[1], depth, acc)
+        elif k == "extract":
+            acc["extract_points"] = acc.get("extract_points", 0) + sum(1 for x in it[1] if x[0] == "point")
             tree_features(it[1], depth, acc)
         else:
             acc["comps"] += 1
@@ -685,8 +756,8 @@ def c_obs(obs, labels, alloc=None):
     else:
         out = "BOther"
     t = obs["tables"]
-    return "(mkObs (%s) %s %s %s %s %s %s %s %s)" % (out, ids(t[0]), ids(t[1]), ids(t[2]), ids(t[3]), ids(t[4]), ids(t[5]),
-                                                      ids(obs["meta"]), C.cnat(max(0, obs["rc"])))
+    return "(mkObs (%s) %s %s %s %s %s %s %s %s %s)" % (out, ids(t[0]), ids(t[1]), ids(t[2]), ids(t[3]), ids(t[4]), ids(t[5]),
+                                                      ids(obs["meta"]), C.cnat(max(0, obs["rc"])), C.cnat(max(0, obs.get("cd", 0))))
 
 
 def c_fault(target):
@@ -705,6 +776,10 @@ def oracle(obs):
         bad.append(("residue", {n: k for n, k in zip(TABLE_NAMES, obs["tables"]) if k}))
     if obs["meta"] or obs["rc"] != 0:
         bad.append(("stacks", {"_metadata_stack not empty for": obs["meta"], "render_context growth": obs["rc"]}))
+    if not obs.get("ctx_same", True):
+        bad.append(("caller-context", {"before": obs.get("ctx_before"), "after": obs.get("ctx_after")}))
+    if "tables_after_again" in obs and (any(obs["tables_after_again"]) and not any(obs["tables"])):
+        bad.append(("residue", {"after the later render with the same Context": obs["tables_after_again"]}))
     if obs["alive"]:
         bad.append(("sentinel-alive", {"alive": obs["alive"], "of": obs["nsent"]}))
     if obs["res"] == "boom":
